@@ -196,6 +196,35 @@ func requestLiterals(fn *ssa.Function, kindNames map[int64]string) []reqRow {
 								row.Kind = kindNames[k]
 							} else {
 								row.Kind = "?"
+								// a shared constructor (`digestRequest(kind, repo, d)`): the kind this
+								// method passes to it, if all its calls from here agree
+								if p, isP := facts.Resolve(st.Val).(*ssa.Parameter); isP && p.Parent() == f && f != fn {
+									pi := -1
+									for i, q := range f.Params {
+										if q == p {
+											pi = i
+										}
+									}
+									kinds := map[int64]bool{}
+									unknown := false
+									for _, g := range withHelpers(fn) {
+										for _, ci := range facts.CallsIn(g) {
+											if ci.Common().StaticCallee() != f || pi < 0 || pi >= len(ci.Common().Args) {
+												continue
+											}
+											if k, ok := facts.ConstInt(ci.Common().Args[pi]); ok {
+												kinds[k] = true
+											} else {
+												unknown = true
+											}
+										}
+									}
+									if len(kinds) == 1 && !unknown {
+										for k := range kinds {
+											row.Kind = kindNames[k]
+										}
+									}
+								}
 							}
 						} else {
 							row.Fields[fld] = describeReqValue(st.Val, fn)
